@@ -152,35 +152,73 @@ func fieldVal(ex *absint.Exec, st *absint.State, v absint.Val, prog *load.Progra
 	return st.Resolve(ex.LoadLeaf(st, ex.FieldPtr(p, idx)))
 }
 
-// fieldIsByteArray reports the length of a [N]byte field (0: the field is not a byte array, e.g. a slice).
-func fieldIsByteArray(prog *load.Program, pkg, typ string, idx int) int {
+// A byte-string field of a key or generator object may be a []byte, a [N]byte or a *[N]byte: the rules build and read
+// it through these helpers so that they do not depend on the representation chosen.
+
+// fieldByteRep: 0 = []byte (or anything else), 1 = [N]byte, 2 = *[N]byte; n = N.
+func fieldByteRep(prog *load.Program, pkg, typ string, idx int) (rep, n int) {
 	p := prog.ByPath[pkg]
 	if p == nil {
-		return 0
+		return 0, 0
 	}
 	o := p.Types.Scope().Lookup(typ)
 	if o == nil {
-		return 0
+		return 0, 0
 	}
 	st, ok := o.Type().Underlying().(*types.Struct)
 	if !ok || idx < 0 || idx >= st.NumFields() {
-		return 0
+		return 0, 0
 	}
-	if a, ok := st.Field(idx).Type().Underlying().(*types.Array); ok {
+	ft := st.Field(idx).Type().Underlying()
+	rep = 1
+	if pt, ok := ft.(*types.Pointer); ok {
+		ft, rep = pt.Elem().Underlying(), 2
+	}
+	if a, ok := ft.(*types.Array); ok {
 		if b, ok := a.Elem().Underlying().(*types.Basic); ok && b.Kind() == types.Uint8 {
-			return int(a.Len())
+			return rep, int(a.Len())
 		}
+	}
+	return 0, 0
+}
+
+func fieldIsByteArray(prog *load.Program, pkg, typ string, idx int) int {
+	if rep, n := fieldByteRep(prog, pkg, typ, idx); rep == 1 {
+		return n
 	}
 	return 0
 }
 
-// storeBytesField puts the byte string t into a field that is either a []byte (a slice over fresh storage) or a [N]byte.
-func storeBytesField(ex *absint.Exec, st *absint.State, p *absint.Ptr, prog *load.Program, pkg, typ string, idx int, t *sym.Term, name string) {
-	if n := fieldIsByteArray(prog, pkg, typ, idx); n > 0 {
+// storeBytesField puts the byte string t into such a field; the returned slice value views the storage created for it
+// (nil for an in-place array).
+func storeBytesField(ex *absint.Exec, st *absint.State, p *absint.Ptr, prog *load.Program, pkg, typ string, idx int, t *sym.Term, name string) *absint.SliceVal {
+	switch rep, n := fieldByteRep(prog, pkg, typ, idx); rep {
+	case 1:
 		ex.WriteArray(st, ex.FieldPtr(p, idx), t, n)
-		return
+		return nil
+	case 2:
+		sv := ex.BytesToSlice(st, t, name)
+		ex.StoreLeaf(st, ex.FieldPtr(p, idx), ex.SliceToArrayPtr(sv), 0)
+		return sv
 	}
-	ex.StoreLeaf(st, ex.FieldPtr(p, idx), ex.BytesToSlice(st, t, name), 0)
+	sv := ex.BytesToSlice(st, t, name)
+	ex.StoreLeaf(st, ex.FieldPtr(p, idx), sv, 0)
+	return sv
+}
+
+// bytesFieldVal converts the value loaded from such a field into a slice value (choices are kept).
+func bytesFieldVal(ex *absint.Exec, prog *load.Program, pkg, typ string, idx int, v absint.Val) absint.Val {
+	rep, n := fieldByteRep(prog, pkg, typ, idx)
+	if rep != 2 {
+		return v
+	}
+	switch x := v.(type) {
+	case *absint.Ptr:
+		return ex.ArrayPtrToSlice(x, n)
+	case *absint.Choice:
+		return &absint.Choice{Cond: x.Cond, A: bytesFieldVal(ex, prog, pkg, typ, idx, x.A), B: bytesFieldVal(ex, prog, pkg, typ, idx, x.B)}
+	}
+	return v
 }
 
 // loadBytesField reads such a field back as a byte string (nil: not a byte string).
@@ -188,11 +226,22 @@ func loadBytesField(ex *absint.Exec, st *absint.State, p *absint.Ptr, prog *load
 	if n := fieldIsByteArray(prog, pkg, typ, idx); n > 0 {
 		return ex.ReadArray(st, ex.FieldPtr(p, idx), n)
 	}
-	sv, _ := st.Resolve(ex.LoadLeaf(st, ex.FieldPtr(p, idx))).(*absint.SliceVal)
+	sv, _ := bytesFieldVal(ex, prog, pkg, typ, idx, st.Resolve(ex.LoadLeaf(st, ex.FieldPtr(p, idx)))).(*absint.SliceVal)
 	if sv == nil {
 		return nil
 	}
 	return ex.SliceBytes(st, sv)
+}
+
+// bytesField is fieldVal for a byte-string field: the value as a slice (or a choice of slices).
+func bytesField(ex *absint.Exec, st *absint.State, v absint.Val, prog *load.Program, pkg, typ, field string) absint.Val {
+	idx := FieldIndex(prog, pkg, typ, field)
+	if p, ok := st.Resolve(v).(*absint.Ptr); ok {
+		if n := fieldIsByteArray(prog, pkg, typ, idx); n > 0 {
+			return ex.ArrayPtrToSlice(ex.FieldPtr(p, idx), n)
+		}
+	}
+	return bytesFieldVal(ex, prog, pkg, typ, idx, fieldVal(ex, st, v, prog, pkg, typ, field))
 }
 
 // symFn / symPt / symBytes / symLen build the symbols the abstract interpreter gives to named parameters.
